@@ -98,6 +98,9 @@ def seq_axioms():
         Len(Empty) == 0,
         ForAll([s], Implies(Len(s) == 0, s == Empty), patterns=[Len(s)]),
         ForAll([v], And(Len(Single(v)) == 1, At(Single(v), 0) == v), patterns=[Single(v)]),
+        # At is total; fixing its value outside the range keeps the index arithmetic out of E-matching
+        # (an index term like `k - Len(s)` that *equals* 0 need not be syntactically 0)
+        ForAll([v, i], At(Single(v), i) == v, patterns=[At(Single(v), i)]),
         ForAll([s, t], Len(App(s, t)) == Len(s) + Len(t), patterns=[App(s, t)]),
         ForAll([s, t, i], And(Implies(And(0 <= i, i < Len(s)), At(App(s, t), i) == At(s, i)), Implies(And(Len(s) <= i, i < Len(s) + Len(t)), At(App(s, t), i) == At(t, i - Len(s)))), patterns=[At(App(s, t), i)]),
         ForAll([s, t], SeqEq(s, t) == And(Len(s) == Len(t), ForAll([j], Implies(And(0 <= j, j < Len(s)), At(s, j) == At(t, j)), patterns=[At(s, j)])), patterns=[SeqEq(s, t)]),
@@ -372,6 +375,44 @@ def pre_post(h: Heap):
         ])
         _PRE[key] = (Pre, PreL, Post, PostL)
     return _PRE[key]
+
+
+_FILT: dict = {}
+
+
+def filt_kind(h: Heap):
+    """FiltK(s, kind, i): the sub-sequence of the first i elements of s whose kind equals `kind` (order kept):
+         FiltK(s,kd,0) = []      FiltK(s,kd,i+1) = FiltK(s,kd,i) ++ [s[i]]  if kind(s[i]) == kd  else  FiltK(s,kd,i)"""
+    key = h.syms["_kind"].name()
+    if key not in _FILT:
+        k = len(_FILT)
+        F = Function(f"FiltK<{k}>", PSeq, Val, I, PSeq)
+        s, kd, i = Const(f"s!flt{k}", PSeq), Const(f"kd!flt{k}", Val), Const(f"i!flt{k}", I)
+        SPEC_AXIOMS.extend([
+            ForAll([s, kd], F(s, kd, 0) == Empty, patterns=[F(s, kd, 0)]),
+            ForAll([s, kd, i], Implies(And(0 <= i, i < Len(s)), F(s, kd, i + 1) == If(h._kind(At(s, i)) == kd, App(F(s, kd, i), Single(At(s, i))), F(s, kd, i))), patterns=[F(s, kd, i)]),
+        ])
+        _FILT[key] = F
+    return _FILT[key]
+
+
+_FILTCB: list = []
+
+
+def filt_cb():
+    """FiltCb(s, cb, i): the sub-sequence of the first i elements of s for which the user callback cb is true:
+         FiltCb(s,cb,0) = []   FiltCb(s,cb,i+1) = FiltCb(s,cb,i) ++ [s[i]]  if truthy(cb(s[i]))  else  FiltCb(s,cb,i)
+    (cb is a pure oracle of its argument, DESIGN §8.6)"""
+    if not _FILTCB:
+        F = Function("FiltCb", PSeq, Val, I, PSeq)
+        s, cb, i = Const("s!fcb", PSeq), Const("cb!fcb", Val), Const("i!fcb", I)
+        orc = oracle_fn("r")
+        SPEC_AXIOMS.extend([
+            ForAll([s, cb], F(s, cb, 0) == Empty, patterns=[F(s, cb, 0)]),
+            ForAll([s, cb, i], Implies(And(0 <= i, i < Len(s)), F(s, cb, i + 1) == If(v_truthy(orc(cb, At(s, i))), App(F(s, cb, i), Single(At(s, i))), F(s, cb, i))), patterns=[F(s, cb, i)]),
+        ])
+        _FILTCB.append(F)
+    return _FILTCB[0]
 
 
 def prelude():
